@@ -184,13 +184,15 @@ class Gateway:
 
         sensor = self.sensors[sensor_id]
 
-        if sensor.is_smart_sleep_node:
-            sensor.set_child_desired_state(child_id, value_type, value)
-            return
-
+        # Validate against the gateway's protocol version also for sleeping nodes:
+        # the command is sent under this version at the next wake-up.
         msg_to_send = self.create_message_to_set_sensor_value(
             sensor, child_id, value_type, value, **kwargs
         )
+
+        if sensor.is_smart_sleep_node:
+            sensor.set_child_desired_state(child_id, value_type, value)
+            return
 
         self.tasks.add_job(msg_to_send.encode)
 
